@@ -77,6 +77,12 @@ impl PanicRec {
             && !self.file.contains("/verif/")
             && !self.file.contains("driver/")
     }
+    /// the panic is a limit of the simulated environment, not a behaviour of
+    /// the code: tokio's timers and I/O driver need a tokio runtime, and the
+    /// tasks here are polled by the simulator's own executor (DESIGN.md 10.6)
+    pub fn env_limit(&self) -> bool {
+        self.msg.contains("there is no reactor running") || self.msg.contains("there is no timer running") || self.msg.contains("must be called from the context of a Tokio")
+    }
     pub fn short_loc(&self) -> String {
         // path relative to the repository, without line (lines move)
         let f = match self.file.find("crates/") {
@@ -424,14 +430,51 @@ impl Scheduler {
 struct TaskWaker {
     id: usize,
     ready: Arc<Mutex<BTreeSet<usize>>>,
+    /// waker of the executor itself while it is parked inside tokio's time
+    /// driver (see `Sim::park`)
+    park: Arc<Mutex<Option<Waker>>>,
+}
+impl TaskWaker {
+    fn fire(&self) {
+        self.ready.lock().unwrap().insert(self.id);
+        if let Some(w) = self.park.lock().unwrap().take() {
+            w.wake();
+        }
+    }
 }
 impl Wake for TaskWaker {
     fn wake(self: Arc<Self>) {
-        self.ready.lock().unwrap().insert(self.id);
+        self.fire();
     }
     fn wake_by_ref(self: &Arc<Self>) {
-        self.ready.lock().unwrap().insert(self.id);
+        self.fire();
     }
+}
+
+/// completes as soon as some task of the simulation has been woken
+struct WaitWake {
+    ready: Arc<Mutex<BTreeSet<usize>>>,
+    park: Arc<Mutex<Option<Waker>>>,
+}
+impl Future for WaitWake {
+    type Output = ();
+    fn poll(self: Pin<&mut Self>, cx: &mut Context<'_>) -> Poll<()> {
+        if !self.ready.lock().unwrap().is_empty() {
+            return Poll::Ready(());
+        }
+        *self.park.lock().unwrap() = Some(cx.waker().clone());
+        Poll::Pending
+    }
+}
+
+/// what ended a park of the executor
+enum Parked {
+    /// a task was woken by one of tokio's own timers (tokio::time inside the code under test)
+    TaskWoken,
+    /// the earliest timer of the simulator is due
+    SimTimer,
+    /// neither the simulator nor tokio has anything pending
+    Nothing,
 }
 
 pub type TaskId = usize;
@@ -444,6 +487,14 @@ pub enum RunEnd {
 }
 
 pub struct Sim {
+    /// a tokio runtime that is never used to run tasks: it provides the
+    /// context (time driver, paused clock) that tokio::time needs when the code
+    /// under test uses it, and its paused clock is advanced in step with the
+    /// simulated clock (DESIGN.md 10.6)
+    rt: tokio::runtime::Runtime,
+    rt_base: tokio::time::Instant,
+    park: Arc<Mutex<Option<Waker>>>,
+    pub tokio_timer_wakes: u64,
     tasks: Vec<Option<Pin<Box<dyn Future<Output = ()>>>>>,
     names: Vec<&'static str>,
     wakers: Vec<Waker>,
@@ -462,7 +513,20 @@ impl Sim {
     pub fn new(spec: &SchedSpec) -> Sim {
         reset_world();
         install_panic_hook();
+        let rt = tokio::runtime::Builder::new_current_thread()
+            .enable_time()
+            .start_paused(true)
+            .build()
+            .expect("tokio runtime for the time driver");
+        let rt_base = {
+            let _g = rt.enter();
+            tokio::time::Instant::now()
+        };
         Sim {
+            rt,
+            rt_base,
+            park: Arc::new(Mutex::new(None)),
+            tokio_timer_wakes: 0,
             tasks: Vec::new(),
             names: Vec::new(),
             wakers: Vec::new(),
@@ -487,6 +551,7 @@ impl Sim {
         let w = Waker::from(Arc::new(TaskWaker {
             id,
             ready: self.ready.clone(),
+            park: self.park.clone(),
         }));
         self.wakers.push(w);
         self.ready.lock().unwrap().insert(id);
@@ -506,7 +571,10 @@ impl Sim {
     /// Cancel a task: its future is dropped (as tokio does on abort / as a
     /// disconnecting HTTP client does to a handler).
     pub fn cancel(&mut self, id: TaskId) {
-        self.tasks[id] = None;
+        {
+            let _g = self.rt.enter();
+            self.tasks[id] = None;
+        }
         self.ready.lock().unwrap().remove(&id);
         log_u64(0xCA ^ (id as u64) << 8);
     }
@@ -546,7 +614,10 @@ impl Sim {
                 let mut cx = Context::from_waker(&waker);
                 let st = bump_step();
                 self.steps += 1;
-                let res = catch(self.names[id], || fut.as_mut().poll(&mut cx));
+                let res = {
+                    let _g = self.rt.enter();
+                    catch(self.names[id], || fut.as_mut().poll(&mut cx))
+                };
                 let done = match res {
                     Ok(Poll::Ready(())) => true,
                     Ok(Poll::Pending) => false,
@@ -563,7 +634,23 @@ impl Sim {
                 log_u64((st << 20) ^ ((id as u64) << 1) ^ done as u64);
                 return Some((id, done));
             }
-            // nothing runnable: advance the clock to the earliest timer
+            // nothing runnable: park until the earliest timer — of the simulator or
+            // of tokio's time driver, whichever comes first on the shared time line
+            let next_sim: Option<u64> = TIMERS.with(|t| t.borrow().peek().map(|e| e.0.at));
+            match self.park(next_sim) {
+                Parked::Nothing => return None,
+                Parked::TaskWoken => {
+                    self.tokio_timer_wakes += 1;
+                    let now = self.tokio_now_ns();
+                    if now > now_ns() {
+                        set_clock(now);
+                    }
+                    bump_step();
+                    log_u64(0x7132 ^ now);
+                    continue;
+                }
+                Parked::SimTimer => {}
+            }
             let fired = TIMERS.with(|t| {
                 let mut t = t.borrow_mut();
                 let Some(Reverse(first)) = t.pop() else {
@@ -597,6 +684,47 @@ impl Sim {
         }
     }
 
+    fn tokio_now_ns(&self) -> u64 {
+        let _g = self.rt.enter();
+        tokio::time::Instant::now().saturating_duration_since(self.rt_base).as_nanos() as u64
+    }
+
+    /// Let tokio's paused clock run forward to the next timer: the simulator's
+    /// earliest one (`next_sim`), a timer of the code under test registered with
+    /// tokio's driver, or — when neither exists — a sentinel far in the future,
+    /// which means the system is quiescent.
+    fn park(&mut self, next_sim: Option<u64>) -> Parked {
+        const SENTINEL_NS: u64 = 400 * 86_400 * 1_000_000_000;
+        let base = self.rt_base;
+        let ready = self.ready.clone();
+        let park = self.park.clone();
+        let now = now_ns();
+        let r = self.rt.block_on(async move {
+            let wake = WaitWake { ready, park };
+            let sentinel = tokio::time::sleep_until(base + std::time::Duration::from_nanos(now.saturating_add(SENTINEL_NS)));
+            match next_sim {
+                Some(at) => {
+                    let sim = tokio::time::sleep_until(base + std::time::Duration::from_nanos(at));
+                    tokio::select! {
+                        biased;
+                        _ = wake => Parked::TaskWoken,
+                        _ = sim => Parked::SimTimer,
+                        _ = sentinel => Parked::Nothing,
+                    }
+                }
+                None => {
+                    tokio::select! {
+                        biased;
+                        _ = wake => Parked::TaskWoken,
+                        _ = sentinel => Parked::Nothing,
+                    }
+                }
+            }
+        });
+        *self.park.lock().unwrap() = None;
+        r
+    }
+
     /// Run until quiescence, the step cap, or until `hook` returns false.
     /// `hook` is called after every poll with the task that ran.
     pub fn run(
@@ -626,7 +754,10 @@ impl Sim {
 impl Drop for Sim {
     fn drop(&mut self) {
         // drop the tasks before the timers so that no waker outlives the run
-        self.tasks.clear();
+        {
+            let _g = self.rt.enter();
+            self.tasks.clear();
+        }
         TIMERS.with(|t| t.borrow_mut().clear());
     }
 }
